@@ -2,5 +2,6 @@ SPECIFICATION Spec
 CONSTANTS
   MaxItems = 5
   Items <- AllItems
+  Wrap = "prog"
   DumpMod = 17
 CONSTRAINT Dump
